@@ -38,7 +38,9 @@ PropOK(k, p) ==
       [] p = "abdesc"      -> k = "addressbook"
       [] OTHER             -> FALSE
 
-Coll == {}        \* the alphabets are unbounded here: only the outcome
+DefaultKind(c) == IF c = "cal1" THEN "calendar" ELSE IF c = "ab1" THEN "addressbook" ELSE ""
+Coll == {"cal1", "cal2", "ab1"}   \* the slots (only RestartOutcome enumerates them)
+CollUnused == {}  \* the other alphabets are unbounded here: only the outcome
 Name == {}        \* operators of Dav are used, never its alphabets
 Body == {}
 PropName == {}
@@ -106,7 +108,8 @@ Outcome(ev, pre) ==
       [] ev.op = "Mk"     -> MkOutcome(st, [c |-> ev.c, kind |-> ev.kind])
       [] ev.op = "DeleteColl" -> DeleteCollOutcome(st, [c |-> ev.c])
       [] ev.op = "Proppatch"  -> ProppatchOutcome(st, [c |-> ev.c, ins |-> InsOK(ev)])
-      [] OTHER -> MustSucceed(st)        \* reads, Restart, Lock, Unlock: no change
+      [] ev.op = "Restart" -> RestartOutcome(st, ev.defaults)
+      [] OTHER -> MustSucceed(st)        \* reads, Lock, Unlock: no change
 
 \* Collection kinds: a collection created without a type ("other") has its type
 \* *guessed* from its contents by the server, so its kind may move when members
@@ -147,12 +150,20 @@ EffectMatches(ev, o, pre, post) ==
                               /\ post.colls[c].props[p] = ins[LastIns(p)].v
                       ELSE /\ p \in DOMAIN pre.colls[c].props /\ p \in DOMAIN post.colls[c].props
                            /\ pre.colls[c].props[p] = post.colls[c].props[p]
+      [] ev.op = "Restart" ->
+           \* exactly the missing default collections appear, empty and of their kind (their
+           \* display name reads as a default); every existing collection is as before
+           /\ Proj(post).store = o.st.store
+           /\ \A c \in Colls(pre) : Proj(post).props[c] = Proj(pre).props[c]
+           /\ KindsOK(pre, post)
+           /\ \A c \in Colls(post) \ Colls(pre) : post.colls[c].kind = DefaultKind(c)
       [] OTHER -> SameSP(post, o.st) /\ KindsOK(pre, post)
 
 Unchanged(pre, post) == SameSP(post, Proj(pre)) /\ KindsOK(pre, post)
 
 
 IsWrite(ev) == ev.op \in {"Put", "Post", "Delete", "Mk", "DeleteColl", "Proppatch"}
+               \/ (ev.op = "Restart" /\ ev.defaults)
 
 \* did the server report success for this request?
 Reported(ev) ==
